@@ -18,12 +18,15 @@ LEVEL_NOTE = ("Trusted: Lean kernel (+propext, Quot.sound), the hand-written mod
 TECHNIQUE = "Lean 4 proof by induction on the string (scanner inverts escape) + differential correspondence"
 DESIGN_REF = "DESIGN.md §5 C03"
 MODULE = "Phil.Props.C03"
-RULE = ("strings over the 12 tokenizer character classes {' \" \\ newline blank $ # { } ; = ordinary}: "
+RULE = ("strings over the 12 tokenizer character classes (plus 9 exotic characters CR TAB VT FF NEL LS NUL SUB BOM in a second bounded-exhaustive tier) {' \" \\ newline blank $ # { } ; = ordinary}: "
         "bounded-exhaustive up to a length bound, random beyond, x 4 quote styles x {value literal, definition in a "
         "document}; a case is non-trivial when the string is non-empty; distinct = distinct (string, style)")
 ASSUMPTIONS = ["str.replace / str.join of CPython", "isspace table validated separately (C02 thorough)"]
 CLASSES = ["'", '"', "\\", "\n", " ", "$", "#", "{", "}", ";", "=", "a"]
 STYLES = ["'", '"', "'''", '"""']
+# characters that are ordinary for the tokenizer but that some layer (newline normalisation, str.splitlines, C strings, terminals)
+# could treat specially: the property quantifies over EVERY string, so they get their own bounded-exhaustive tier
+EXOTIC = ["\r", "\t", "\x0b", "\x0c", "\x85", "\u2028", "\x00", "\x1a", "\ufeff"]
 
 
 def observe(q, s):
@@ -67,10 +70,16 @@ def strings(ctx):
     for n in range(n_ex + 1):
         for t in itertools.product(CLASSES, repeat=n):
             yield "".join(t), n <= n_corr
+    n_exo = ctx.scale(2, 3, 3)
+    for n in range(1, n_exo + 1):
+        for t in itertools.product(CLASSES + EXOTIC, repeat=n):
+            if any(c in EXOTIC for c in t):
+                yield "".join(t), n <= 2
     ctx.exhaustive = True
-    ctx.notes.append("exhaustive over all strings of length <= %d over 12 classes (correspondence <= %d)" % (n_ex, n_corr))
+    ctx.notes.append("exhaustive over all strings of length <= %d over 12 classes (correspondence <= %d) and of length <= %d over "
+                     "the 12 classes + %d exotic characters (CR, TAB, VT, FF, NEL, LS, NUL, SUB, BOM)" % (n_ex, n_corr, n_exo, len(EXOTIC)))
     rng = ctx.rng
-    alphabet = CLASSES + ["b", "é", "\t", "\\\\", "\\'", '\\"', "'''", '"""', "\\\n"]
+    alphabet = CLASSES + EXOTIC + ["b", "é", "\r\n", "\\\\", "\\'", '\\"', "'''", '"""', "\\\n"]
     for _ in range(ctx.scale(3000, 100000, 20000)):
         k = rng.choice([1, 2, 5, 9, 20, 60, 300])
         yield "".join(rng.choice(alphabet) for _ in range(rng.randint(0, k))), True
